@@ -259,7 +259,7 @@ def partitions(tier, seed):
                       rep={'bits': 0x400921FB54442D18, 't': trep}))
     for n in ((0, 1, 2) if q else (0, 1, 2, 3)):
         parts.append(Part('leaf_str_%d' % n, [('s', 'str')] + T, ['len(s) == %d' % n] + TP,
-                          LEAF_STR % {'tl': tl}, PRE, 200 if q else 900, family='leaf',
+                          LEAF_STR % {'tl': tl}, PRE, 200 if q else 480, family='leaf',
                           bound='all strings of %d code points' % n,
                           rep={'s': 'é€😀'[:n], 't': trep}))
     for n in (range(0, 5) if q else range(0, 9)):
@@ -271,7 +271,7 @@ def partitions(tier, seed):
     for exp in range(-9, 4):
         parts.append(Part('leaf_decimal_e%s' % (str(exp).replace('-', 'm')),
                           [('neg', 'bool'), ('coef', 'int')] + T, ['0 <= coef <= %d' % top] + TP,
-                          LEAF_DEC % {'tl': tl, 'exp': exp}, PRE, 300 if q else 900, family='leaf_decimal',
+                          LEAF_DEC % {'tl': tl, 'exp': exp}, PRE, 300 if q else 480, family='leaf_decimal',
                           bound='sign x coefficient 0..%d x exponent %d (enumerated by realization)' % (top, exp),
                           rep={'neg': True, 'coef': 15, 't': trep}))
     for i, lit in enumerate(['2147483647', '2147483648', '21474836.47', '1E-255', '1E-256', '0.0000001',
@@ -304,10 +304,10 @@ def partitions(tier, seed):
     import itertools
     for name, (expr, nleaf, nkey) in tpls.items():
         if nleaf < 2:
-            parts.append(_tpl_part(name, expr, nleaf, nkey, tl, 280 if q else 900, narrow=q and nkey >= 2))
+            parts.append(_tpl_part(name, expr, nleaf, nkey, tl, 280 if q else 480, narrow=q and nkey >= 2))
             continue
         for sels in itertools.product(range(4), repeat=nleaf):
-            p = _tpl_part(name, expr, nleaf, nkey, tl, 280 if q else 900, narrow=q)
+            p = _tpl_part(name, expr, nleaf, nkey, tl, 280 if q else 480, narrow=q)
             p.name += '_' + ''.join(str(x) for x in sels)
             for j, sv in enumerate(sels):
                 p.pre = [c for c in p.pre if c != '0 <= sel%d <= 3' % j] + ['sel%d == %d' % (j, sv)]
